@@ -17,7 +17,7 @@ func Run(c *fw.Ctx) {
 	dm := directedMatrices()
 	c.Cases("no-return.directed", 2*len(dm), func(cs *fw.Case) {
 		cs.SetCPUBudget(30 * time.Second)
-		runMatrix(cs, dm[cs.Index/2], cs.Index%2 == 1)
+		runMatrix(cs, dm[cs.Index/2], cs.Index%2 == 1, true)
 	})
 	// all 2x2 matrices with entries in {-2..2}
 	c.Cases("no-return.2x2", 625, func(cs *fw.Case) {
@@ -25,11 +25,11 @@ func Run(c *fw.Ctx) {
 		k := cs.Index
 		e := func() float64 { v := float64(k%5 - 2); k /= 5; return v }
 		a, b, cc, d := e(), e(), e(), e()
-		runMatrix(cs, sq(class2x2(a, b, cc, d), 2, a, b, cc, d), false)
+		runMatrix(cs, sq(class2x2(a, b, cc, d), 2, a, b, cc, d), false, true)
 	})
 	c.Cases("no-return.small-int", c.N(3000, 50000), func(cs *fw.Case) {
 		cs.SetCPUBudget(30 * time.Second)
-		runMatrix(cs, randomSmallInt(cs.R), cs.R.Chance(0.2))
+		runMatrix(cs, randomSmallInt(cs.R), cs.R.Chance(0.2), cs.Index%4 == 0)
 	})
 	sc := optScenarios()
 	reps := c.N(2, 12)
